@@ -49,3 +49,20 @@ Theorem C05_drain_polls_live_children_only :
      end.
 Proof. exact drain_live. Qed.
 Print Assumptions C05_drain_polls_live_children_only.
+
+(** with a destructor that panics (JoinPanic.v, a model of its own): the slot map's [remove]
+    destroys the future with [Pin::set], which marks the slot vacant even when the destructor
+    unwinds - so a destroyed future is never left in an occupied slot (where a stale waker would get
+    it polled again), whatever the inputs, the completion order and the panicking destructors;
+    written as "destroy in place, then overwrite" one panic leaves a destroyed future in its slot *)
+From FB Require Import JoinPanic.
+Theorem C05_set_keeps_destroyed_futures_out_of_their_slots :
+  forall (n : nat) (ms : list mstep) (s : jst),
+  no_split ms = true -> reach n ms s -> ND n s.
+Proof. exact set_keeps_destroyed_futures_out_of_their_slots. Qed.
+Print Assumptions C05_set_keeps_destroyed_futures_out_of_their_slots.
+
+Theorem C05_split_destroy_leaves_a_destroyed_future_in_its_slot :
+  exists s, reach 1 split_order s /\ dst s 0 = true /\ occ s 0 = true.
+Proof. exact split_destroy_leaves_a_destroyed_future_in_its_slot. Qed.
+Print Assumptions C05_split_destroy_leaves_a_destroyed_future_in_its_slot.
